@@ -62,7 +62,16 @@ def r14_2(ctx: Ctx) -> None:
     ctx.need(bool(fl) and bool(wh), "_write_flush shape not recognised")
     ok = not cfg.reaches(q.node_for(wf, wh[0]), q.node_for(wf, fl[0]))
     # flush happens whenever a folder was initialised: its only guard
-    facts = [(norm(cd), pol) for cd, pol in q.facts_at(wf, fl[0])]
+    def aborts(cd: ast.AST, pol: bool) -> bool:
+        """the fact comes from a guard whose OTHER outcome raises (the whole flush is refused, nothing is written at all)."""
+        for t in cfg.nodes:
+            if t.kind == "test" and any(x is cd for x in ast.walk(t.ast)):
+                other = next((e for e in t.succ if e.kind == ("false" if pol else "true")), None)
+                if other is not None and q.branch_always_raises(cfg, other):
+                    return True
+        return False
+    raw = [(cd, pol) for cd, pol in q.facts_at(wf, fl[0]) if not aborts(cd, pol)]
+    facts = [(norm(cd), pol) for cd, pol in raw]
     ok = ok and all(("_initialized" in cd or "header is not None" in cd) and pol for cd, pol in facts)
     ctx.check(ok, "R14.2", wf, wh[0], "packed data is flushed before the header is written", "_write_flush can write the header before the last folder is flushed (or skips the flush)")
     h = shared.szf(ctx, "_write_header")
